@@ -22,16 +22,28 @@ claim("C05",
       BOUND + "N<=2 periods per sequence for Merge (3 for Truncate), spread <=2 periods quick; accumulator bytes fully symbolic with finite floats; sums compared on the reals where the property says 'up to reassociation'; PERCENTILE, NaN/Inf and distances beyond 1024 periods are outside.",
       "DESIGN.md §5 C05")
 claim("C07",
-      "Window law of the real Sequence.Truncate: a period wholly inside (asOf, until] is kept with identical bytes, a period ending at or before asOf or after until is dropped, for symbolic on-grid and off-grid bounds.",
-      BOUND + "N<=3 periods; only the Truncate kernel is decided so far (planner.asOfUntilFor, group.GetAsOf/GetUntil and flatten emission are not yet encoded); roundings through verified integer summaries.",
+      "Time windows decided at three levels of the real code: (T) Sequence.Truncate keeps exactly the periods inside (asOf, until] byte-identical for symbolic on/off-grid bounds; (C07.F) Flatten(Group(src,{AsOf,Until})) emits exactly the stored periods inside the window for a symbolic absolute time; (C07.Q) the real planner with an unaligned symbolic clock resolves relative and absolute ASOF/UNTIL to exactly the periods whose start lies in [asOf_raw, until_raw); (C07.R, C01.R) the float-based RoundTimeUntilUp/Down equal their integer summaries bit-precisely and RoundTimeUp/Down meet their specification for every instant.",
+      BOUND + "N<=3/4 periods, 3 stored periods at the planner level, 8 time-range clause shapes; |until-ts| <= 1024 periods for the rounding proofs; RFC3339 parsing is done by the native time.Parse (engine model on concrete strings).",
       "DESIGN.md §5 C07")
+claim("C06",
+      "Coarser grouping decided at three levels: (S) real Sequence.SubMerge folds two arbitrary fine sequences into coarse periods anchored at until: each fine period inside (asOf, until] contributes to exactly the coarse period containing it, accumulators merged (AVG from totals and counts); (C06.G) real core.Group keys rows by the projection of symbolic dims, merging equal projections, every row in exactly one output row; (C06.Q) ten GROUP BY shapes (dim subsets, *, _, period multiples) through the real planner equal a reference aggregation computed from the raw symbolic rows.",
+      BOUND + "scale 2-3, <=2 (quick) fine periods per sequence plus a second sequence of 1 period, 2-3 rows with dims from small pools, 3 stored periods; crosstab and stride are outside.",
+      "DESIGN.md §5 C06")
+claim("C08",
+      "Filters through the real planner over symbolic tables: (C08.H) HAVING returns exactly the rows of the HAVING-free query whose reported values satisfy the predicate, helper column hidden (7 shapes); (C08.W) WHERE returns what the WHERE-free query returns over only the matching rows, including rows with missing dimensions (9 predicates); (C08.I) dim IN (sub-query) equals IN over the literal list computed from the raw rows (4 sub-query shapes with WHERE/HAVING).",
+      BOUND + "2-3 rows, dims x in {absent,1,2}, y in {absent,1,2}, 1-2 periods, values symbolic finite reals (real mode); goexpr functions needing redis/geo, LIKE patterns and nested FROM-sub-queries beyond the corpus are outside.",
+      "DESIGN.md §5 C08")
+claim("C11",
+      "Translation validation: for 24 query shapes x 3 partition-key sets x 1-2 partitions, the real planner.Plan builds the local plan and the cluster plan (pushdown or leader-side regroup; partitions answered by the real local planner over a key-respecting split, unflattened when asked); both are executed over the same symbolic rows and must produce the same fields and the same rows (same order where ORDER BY decides it).",
+      BOUND + "2 rows (3 thorough), 1 period quick, values symbolic reals; programs are enumerated (shape variables), data are symbolic; known finding D17 (OFFSET pushed down and applied twice) is listed in known_findings.json; the textual 'group by' cut (D7) is outside the corpus.",
+      "DESIGN.md §5 C11", cat="translation_validation", technique="translation validation by bounded symbolic execution of planner.Plan + core operators (go/ssa), SMT equality of result rows (cvc5)")
 claim("C09",
       "orderedRows.Less equals the lexicographic comparison of the key list for two fully symbolic rows and every key list up to length L over {_time, f1, f2, d1, d2} x {asc, desc}; the real sorter (sort.Sort) emits a sorted permutation; Limit(Offset(src,m),n) emits exactly rows m..min(k,m+n)-1 for symbolic m, n.",
       BOUND + "L<=2 keys quick (3 thorough), 3 rows for the sorter, k<=4 source rows; NaN sort keys, dims of different Go types between rows, and LIMIT 0 (treated as no limit by the planner, noted as D12) are outside.",
       "DESIGN.md §5 C09")
 claim("C10",
       "Routing agreement on the real code: for a WAL entry with symbolic dims the leader's mapPartitionRequest sends exactly one result with 0<=pid<P and, among P follower tables, table.insert(isFollower) accepts the entry in exactly the partition the leader computed.",
-      BOUND + "P in 1..5, partition keys in {none, {a}, {b,a}}, dims a (2-byte string) and b (int64) present or absent; murmur3 replaced by a deterministic polynomial hash (only determinism and Reset are used); live nodes, gRPC fan-out and plan equivalence are outside (C11 not claimed).",
+      BOUND + "P in 1..5, partition keys in {none, {a}, {b,a}}, dims a (2-byte string) and b (int64) present or absent; murmur3 replaced by a deterministic polynomial hash (only determinism and Reset are used); plan equivalence is the C11.V harness (also run here) and partitionRowMapper is decided over field-list pairs of a pool (C10.M); live nodes and gRPC fan-out are outside.",
       "DESIGN.md §5 C10")
 claim("C12",
       "Follower-side dedup of the real doFollowLeaders callback: with two tables whose prior offsets are symbolic and three deliveries with symbolic offsets (replays, duplicates, gaps are order relations chosen by the solver), each table is handed an entry iff it is After everything that table accepted, in order, independently; makeFollows never requests an earliest offset above a table's own; Offset order lemmas as in C02.",
